@@ -158,6 +158,26 @@ class SimFS(object):
         del self.files[a]
         self.clock += 1
 
+    def sys_stat(self, p):
+        if self.step('stat', False):
+            raise SimCrash()
+        f = self.files.get(p)
+        if f is None:
+            if p in self.dirs:
+                st = _Stat(_File(b'', 0, 0))
+                st.st_mode = 0o040755
+                return st
+            raise FileNotFoundError(errno.ENOENT, 'No such file or directory', p)
+        return _Stat(f)
+
+    def sys_utime(self, p):
+        if self.step('utime', True):
+            raise SimCrash()
+        f = self.files.get(p)
+        if f is None:
+            raise FileNotFoundError(errno.ENOENT, 'No such file or directory', p)
+        self._tick(f)
+
     def sys_makedirs(self, d):
         if self.step('makedirs', d not in self.dirs):
             raise SimCrash()
@@ -177,6 +197,9 @@ class SimRawFile(io.RawIOBase):
 
     def readable(self):
         return 'r' in self.mode
+
+    def fileno(self):
+        return 100000 + self.f.ino       # a fake descriptor, recognised by FakeOS.fsync
 
     def writable(self):
         return 'w' in self.mode
@@ -227,12 +250,107 @@ class Seam(object):
         return io.TextIOWrapper(io.BufferedWriter(raw, fs.bufsize), encoding='utf-8')
 
 
-class FakeOS(object):
+class _Stat(object):
+    def __init__(self, f):
+        self.st_size = len(f.data)
+        self.st_mtime = float(f.mtime)
+        self.st_mtime_ns = int(f.mtime) * 10 ** 9
+        self.st_ino = f.ino
+        self.st_mode = 0o100644
+
+
+class FakePath(object):
+    """os.path for virtual paths; everything else is the real os.path"""
+
     def __init__(self, seam):
         self._seam = seam
 
     def __getattr__(self, name):
+        return getattr(_os.path, name)
+
+    def _fs(self, p):
+        fs = self._seam.fs
+        return fs if (fs is not None and is_virtual(p)) else None
+
+    def exists(self, p):
+        fs = self._fs(p)
+        if fs is None:
+            return _os.path.exists(p)
+        fs.step('stat', False)
+        return p in fs.files or p in fs.dirs
+
+    lexists = exists
+
+    def isfile(self, p):
+        fs = self._fs(p)
+        if fs is None:
+            return _os.path.isfile(p)
+        fs.step('stat', False)
+        return p in fs.files
+
+    def isdir(self, p):
+        fs = self._fs(p)
+        if fs is None:
+            return _os.path.isdir(p)
+        fs.step('stat', False)
+        return p in fs.dirs
+
+    def getsize(self, p):
+        fs = self._fs(p)
+        if fs is None:
+            return _os.path.getsize(p)
+        return fs.sys_stat(p).st_size
+
+    def getmtime(self, p):
+        fs = self._fs(p)
+        if fs is None:
+            return _os.path.getmtime(p)
+        return fs.sys_stat(p).st_mtime
+
+
+class FakeOS(object):
+    def __init__(self, seam):
+        self._seam = seam
+        self.path = FakePath(seam)
+
+    def __getattr__(self, name):
         return getattr(_os, name)
+
+    def stat(self, p, *a, **kw):
+        fs = self._seam.fs
+        if fs is not None and is_virtual(p):
+            return fs.sys_stat(p)
+        return _os.stat(p, *a, **kw)
+
+    lstat = stat
+
+    def utime(self, p, *a, **kw):
+        fs = self._seam.fs
+        if fs is not None and is_virtual(p):
+            return fs.sys_utime(p)
+        return _os.utime(p, *a, **kw)
+
+    def fsync(self, fd):
+        fs = self._seam.fs
+        if fs is not None and isinstance(fd, int) and fd >= 100000:
+            if fs.step('fsync', False):
+                raise SimCrash()
+            return None
+        return _os.fsync(fd)
+
+    fdatasync = fsync
+
+    def listdir(self, d='.'):
+        fs = self._seam.fs
+        if fs is not None and is_virtual(d):
+            fs.step('listdir', False)
+            pre = d.rstrip('/') + '/'
+            names = set()
+            for p in list(fs.files) + list(fs.dirs):
+                if p.startswith(pre):
+                    names.add(p[len(pre):].split('/')[0])
+            return sorted(names)
+        return _os.listdir(d)
 
     def getpid(self):
         fs = self._seam.fs
